@@ -62,6 +62,10 @@ pub struct ScriptServer {
     handle: Option<std::thread::JoinHandle<()>>,
 }
 
+/// virtual mode: the served "file" is the given bytes repeated for ever (byte at offset o = file[o % len]), so that ranges
+/// far beyond 2^32 can be asked for; a request for more than 64 KiB is answered with its first 64 KiB only
+pub static VIRTUAL_FILE: AtomicBool = AtomicBool::new(false);
+
 fn handle_conn(mut s: TcpStream, file: &[u8], script: &Mutex<Vec<SItem>>, log: &Mutex<Vec<(u64, u64)>>, frag: &[u64]) {
     let _ = s.set_read_timeout(Some(Duration::from_secs(5)));
     let mut req = vec![];
@@ -91,9 +95,13 @@ fn handle_conn(mut s: TcpStream, file: &[u8], script: &Mutex<Vec<SItem>>, log: &
     let size = e.wrapping_sub(a).wrapping_add(1);
     log.lock().unwrap().push((a, size));
     let item = { let mut sc = script.lock().unwrap(); if sc.is_empty() { SItem::Ok } else { sc.remove(0) } };
+    let virt: Vec<u8>;
     let a_us = (a as usize).min(file.len());
     let want_end = (a_us + size as usize).min(file.len());
-    let want = &file[a_us..want_end];
+    let want: &[u8] = if VIRTUAL_FILE.load(Ordering::Relaxed) && !file.is_empty() {
+        virt = (0..size.min(1 << 16)).map(|i| file[((a + i) % file.len() as u64) as usize]).collect();
+        &virt
+    } else { &file[a_us..want_end] };
     let send = |s: &mut TcpStream, clen: usize, body: &[u8]| {
         let head = format!("HTTP/1.1 206 Partial Content\r\nContent-Length: {}\r\nConnection: close\r\n\r\n", clen);
         let _ = s.write_all(head.as_bytes());
@@ -371,6 +379,29 @@ pub fn suite_http(dir: &str, seed: u64, thorough: bool, st: &mut Stats) {
         }
         out.push(&line, &format!("{} | {}", items_str(&items), log_str(&log)));
     }
+    // ranges far beyond 2^32 (chunk data of a large archive) against the virtual file: a list whose second part is moved
+    // up by a multiple of 2^32 -- what was adjacent across the cut no longer is, everything else keeps its runs; the
+    // bytes are those of the shifted offsets
+    VIRTUAL_FILE.store(true, Ordering::Relaxed);
+    for _ in 0..(n / 12) {
+        let flen = rng.range(60, 300) as usize;
+        let file: Vec<u8> = (0..flen).map(|_| rng.next() as u8).collect();
+        let base: Vec<(u64, usize)> = gen_ranges(&mut rng, flen).into_iter().filter(|r| r.1 > 0).collect();
+        if base.len() < 2 { continue; }
+        let cut = rng.range(1, base.len() as u64 - 1).min(base.len() as u64 - 1) as usize;
+        let k = rng.range(1, 3) << 32;
+        let lift = if rng.chance(1, 3) { 7u64 << 32 } else { 0 };
+        let ranges: Vec<(u64, usize)> = base.iter().enumerate().map(|(i, (o, sz))| (o + lift + if i >= cut { k } else { 0 }, *sz)).collect();
+        let (items, log) = run_http_chunks_frag(&file, &ranges, 0, vec![], vec![]);
+        let line = format!("http-virtual {} {}", hex(&file), ranges.iter().map(|(o, s)| format!("{}+{}", o, s)).collect::<Vec<_>>().join(","));
+        st.evaluations += 1;
+        st.oracle_checks += 1;
+        st.count("http/beyond-2^32");
+        let want: Vec<Result<Vec<u8>, String>> = ranges.iter().map(|(o, sz)| Ok((0..*sz as u64).map(|i| file[((o + i) % flen as u64) as usize]).collect())).collect();
+        if log != runs(&ranges) { st.violation("C07", &format!("beyond 2^32: requests {:?} are not the maximal runs {:?}", log, runs(&ranges)), &line); }
+        if items != want { st.violation("C08", "beyond 2^32: http reader did not deliver exactly the requested bytes", &line); }
+    }
+    VIRTUAL_FILE.store(false, Ordering::Relaxed);
     // read_at
     for _ in 0..(n / 6) {
         let flen = rng.range(30, 200) as usize;
